@@ -165,7 +165,7 @@ pub fn run(ctx: &Ctx) -> Rep {
     // a related predecessor (same low bits / a power of two apart / byte-swapped / itself); if that rank is not
     // identical to the table's, it is compared against the whole table with every clause.
     {
-        let all_preds = (ctx.thorough() || ctx.escalate) && !ctx.smoke();
+        let all_preds = ctx.thorough() && !ctx.smoke();
         let s3 = par_run(ctx, chunks.len(), mk, |st, ci| {
             for &a in chunks[ci] {
                 let mut preds: Vec<u16> = vec![a, !a, a.swap_bytes()];
